@@ -224,6 +224,12 @@ func (g *Gen) ACE(c *GConf) string {
 	return s
 }
 
+func (g *Gen) aceWithAction(c *GConf, action string) string {
+	w := strings.Fields(g.ACE(c))
+	w[0] = action
+	return strings.Join(w, " ")
+}
+
 func (g *Gen) denyAll() string {
 	if g.Kind == "asa" {
 		return "deny ip any4 any4"
@@ -283,6 +289,22 @@ func (g *Gen) Target() *GConf {
 			n := g.Rng.Intn(12)
 			if g.Small {
 				n = 1 + g.Rng.Intn(8)
+			}
+			if g.Rng.Intn(4) == 0 {
+				// One long block of one action with a few interior
+				// lines of the other action.
+				x, y := "permit", "deny"
+				if g.Rng.Intn(4) == 0 {
+					x, y = y, x
+				}
+				for i := 5 + g.Rng.Intn(6); i > 0; i-- {
+					a.Lines = append(a.Lines, g.aceWithAction(c, x))
+				}
+				for i := 1 + g.Rng.Intn(3); i > 0; i-- {
+					k := 1 + g.Rng.Intn(len(a.Lines)-1)
+					a.Lines = append(a.Lines[:k:k], append([]string{g.aceWithAction(c, y)}, a.Lines[k:]...)...)
+				}
+				n = 0
 			}
 			for i := 0; i < n; i++ {
 				a.Lines = append(a.Lines, g.ACE(c))
@@ -381,7 +403,7 @@ func (g *Gen) Device(t *GConf, nedits int, unmanaged bool) (*GConf, []string) {
 			}
 			continue
 		}
-		switch g.Rng.Intn(22) {
+		switch g.Rng.Intn(24) {
 		case 0: // generated names on device
 			for _, a := range d.ACLs {
 				old := a.Name
@@ -565,6 +587,31 @@ func (g *Gen) Device(t *GConf, nedits int, unmanaged bool) (*GConf, []string) {
 					ops = append(ops, "binding-extra")
 				}
 			}
+		case 22, 23: // lines that split a block are new in the target, and old lines move
+			if len(d.ACLs) > 0 {
+				a := d.ACLs[g.Rng.Intn(len(d.ACLs))]
+				action := func(l string) string { return strings.Fields(l)[0] }
+				var kept []string
+				removed := 0
+				for i, l := range a.Lines {
+					if i > 0 && i+1 < len(a.Lines) && action(l) != action(a.Lines[i-1]) &&
+						action(a.Lines[i-1]) == action(a.Lines[i+1]) && g.Rng.Intn(10) < 7 {
+						removed++
+						continue
+					}
+					kept = append(kept, l)
+				}
+				if removed > 0 && len(kept) > 3 {
+					a.Lines = kept
+					for n := 1 + g.Rng.Intn(2); n > 0; n-- {
+						i, j := g.Rng.Intn(len(a.Lines)-1), g.Rng.Intn(len(a.Lines)-2)
+						l := a.Lines[i]
+						a.Lines = append(a.Lines[:i:i], a.Lines[i+1:]...)
+						a.Lines = append(a.Lines[:j:j], append([]string{l}, a.Lines[j:]...)...)
+					}
+					ops = append(ops, "acl-splitters-new")
+				}
+			}
 		case 21: // sub-mode edits, toplevel deletes and clean-up mixed in one run
 			n0 := len(ops)
 			for _, gr := range d.Groups {
@@ -654,7 +701,19 @@ func (g *Gen) Device(t *GConf, nedits int, unmanaged bool) (*GConf, []string) {
 				a := d.ACLs[g.Rng.Intn(len(d.ACLs))]
 				if len(a.Lines) > 3 {
 					i := 3 + g.Rng.Intn(len(a.Lines)-3) // moved line
-					j := g.Rng.Intn(i - 2)              // its place on device
+					// Prefer a place where the two new lines and the moved
+					// one have actions X, Y, X.
+					var xyx []int
+					for k := 3; k < len(a.Lines); k++ {
+						f := func(l string) string { return strings.Fields(l)[0] }
+						if f(a.Lines[k]) == f(a.Lines[k-2]) && f(a.Lines[k]) != f(a.Lines[k-1]) {
+							xyx = append(xyx, k)
+						}
+					}
+					if len(xyx) > 0 && g.Rng.Intn(3) != 0 {
+						i = xyx[g.Rng.Intn(len(xyx))]
+					}
+					j := g.Rng.Intn(i - 2) // its place on device
 					m := a.Lines[i]
 					var nl []string
 					nl = append(nl, a.Lines[:j]...)
